@@ -687,8 +687,11 @@ def run(chk):
     chk.rule = ("enumerated: every inheritance graph on 3 role names x every role list of length <= 3 over those "
                 "names and one absent name (quick: every 3rd), plus random graphs up to 30 nodes with cycles, "
                 "self-loops, duplicate parents, ghost parents, non-ASCII names; a subset also through Guard with "
-                "sync/async/raising resolvers. non-trivial = some given role has at least one parent; distinct = "
-                "distinct (graph, roles[, resolver flavour])")
+                "sync/async/raising resolvers, also without a logger sink and on Guards constructed with another "
+                "policy (roles policy installed by set_policy / update_policy / hot reload); overlapping evaluations on "
+                "one Guard (threads, one loop, evaluate_sync inside a running loop) with the resolver suspended at a "
+                "gate. non-trivial = some given role has at least one parent; distinct = "
+                "distinct (graph, roles[, resolver flavour / Guard configuration / schedule])")
     chk.assumptions = ["role names are strings (what the property quantifies over)",
                        "Python str ordering on code points = byte order of the UTF-8 encoding (model sorts bytes)"]
     check_cases(chk, gen_cases(chk))
